@@ -346,6 +346,8 @@ def run(repo, res):
 
 
 MUTANTS = [
+    dict(name="R5 gene-fit abssum subtracted from the objective", module="cn", expect=["C03.R8", "C03.R9"],
+         old="    model.setObjective(o_diff + o_fit + o_pars)", new="    model.setObjective(o_diff - o_fit + o_pars)"),
     dict(name="R1 one CDIPLO side dropped", module="cn", expect=["C03.R8", "C03.R9"],
          old='    model.addConstr(diplo_inducing >= 2, name="CDIPLO")\n', new=""),
     dict(name="R1 three haplotypes", module="cn", expect=["C03.R8", "C03.R9"],
